@@ -6,12 +6,18 @@
     t.<k>                 producer map transmit()      x.<cob>.<hex> / y.<cob>.<hex>.<dt>  third-party frame
     r.<k> / p.<k>         read consumer / producer map q.<k>  remote_request()    s.<k>  subscribe()
     c.<k>.<cob|n>.<en>.<rtr> / d.<k>.<cob>.<en>.<rtr>  reconfigure by attributes / from the dictionary
-    b.<k>.<tag>           add_callback                 W.<k>.<cob:hex;…|->  wait_for_reception with arrivals
+    b.<k>.<tag> / B.<k>.<tag>  add_callback of an observer (B: it raises after recording)
+    W.<k>.<cob:hex;…|->   wait_for_reception, the arrivals delivered inline while waiting (scripted condition)
+    Z.<k>.<n>.<ms>.<cob:hex;…|->  n reader threads in wait_for_reception(ms), arrivals handed in from another thread
+    a frame's callback log: <k>.<tag>~<timestamp>~<is_received>~<period>~<data>~<v;v;…> per invoked callback
     S.<P|C>.<k>.<seconds|n>  start(period) of the periodic transmission of producer / consumer map k
     E.<P|C>.<k>  stop()   U.<P|C>.<k>  update()        T.<k>.<1|0>  older spelling of S.C.<k>.7 / E.C.<k>
 """
 import logging
+import threading
+import time
 
+import can
 import canopen
 from canopen import objectdictionary as od
 
@@ -28,9 +34,13 @@ THEOREMS = [
     "Canopen.C15.only_subscribed_map_updates",
     "Canopen.C15.notify_updates_exactly_subscribed",
     "Canopen.C15.callbacks_once",
+    "Canopen.C15.callback_sees_frame",
+    "Canopen.C15.reception_independent_of_callbacks",
     "Canopen.C15.transmit_frame",
     "Canopen.C15.rtr_only_if_enabled_and_allowed",
     "Canopen.C15.wait_wakes",
+    "Canopen.C15.wait_threaded_wakes",
+    "Canopen.C15.wait_independent_of_callbacks",
     "Canopen.C15.transmit_any_running",
     "Canopen.C15.periodic_calls_erased",
     "Canopen.C15.transmit_independent_of_periodic",
@@ -39,6 +49,10 @@ THEOREMS = [
 ]
 FINGERPRINT = c05.FINGERPRINT + [
     "canopen.pdo.base:PdoMap.on_message",
+    "canopen.pdo.base:PdoMap.__getitem__",
+    "canopen.pdo.base:PdoMap.__iter__",
+    "canopen.pdo.base:PdoMap.__len__",
+    "canopen.network:MessageListener",
     "canopen.pdo.base:PdoMap.transmit",
     "canopen.pdo.base:PdoMap.remote_request",
     "canopen.pdo.base:PdoMap.subscribe",
@@ -55,14 +69,25 @@ FINGERPRINT = c05.FINGERPRINT + [
 ]
 TRUSTED = c05.TRUSTED + [
     "threading.Condition modelled as monitor: wait_for_reception is a function of the frames delivered while "
-    "waiting (scripted through a fake condition; the threaded variant is evidence only)",
+    "waiting - scripted through a fake condition (token W), and with real reader threads on a real Condition "
+    "(token Z): frames are handed in from another thread once every reader is inside wait(), the readers are joined "
+    "as soon as the map says is_received; a reader that got a timestamp but needed the whole (generous) time-out "
+    "counts as not woken",
+    "frames reach the consuming network through its MessageListener (python-can's Notifier thread is not run)",
     "Network dispatch as in C10 (subscriber lists per COB-ID, append-if-absent)",
     "python-can's cyclic tasks are replaced by C17's recording tasks (no timer fires, so no cyclic frame "
     "reaches the bus during a history); what a running task sends is C17's subject",
 ]
-ASSUMPTIONS = ["timestamps are the integers the harness injects", "callbacks neither raise nor re-enter the map"]
+ASSUMPTIONS = ["timestamps are the integers the harness injects",
+               "callbacks do not re-enter the map; a callback that raises ends the dispatch of that frame as the tree "
+               "does it (the map's remaining callbacks and the maps subscribed later on the same COB-ID are passed over, "
+               "the listener logs the exception): claimed for such a frame are the map's data and timestamp, what the "
+               "callbacks invoked so far saw, and the wake-up of waiting readers"]
 RULE = ("op x: a history over producer maps and consumer maps (distinct and colliding COB-IDs) of write / transmit / "
-        "third-party frame / read / remote request / subscribe / reconfigure / add callback / wait, and "
+        "third-party frame / read / remote request / subscribe / reconfigure / add callback / wait, callbacks being "
+        "observers that record what they see when called (timestamp, is_received, period, data, every variable) and "
+        "some of them raising (first / middle / last), waits scripted inline and with 1..3 real reader threads, maps "
+        "with all eight slots used (variables addressed by position 0..7), and "
         "start(period) / stop / update of the periodic transmission on maps of either side (periods 1 s .. 1 day, "
         "0 and none; recording bus, no timer), so that every other step runs with and without a running task; "
         "layouts and values as in C05; non-trivial = at least one frame was delivered to a subscribed map")
@@ -126,10 +151,27 @@ class FakeCondition:
     def notify_all(self):
         pass
 
+    def notify(self, n=1):
+        pass
+
     def wait(self, timeout=None):
         script, self.script = self.script, []
         for cid, data in script:
             self.rig.deliver(cid, data)
+
+
+class ObsCondition(threading.Condition):
+    """a real threading.Condition that tells the rig when a reader thread is about to block in wait(): the reader
+    holds the lock at that moment, so a frame delivered afterwards cannot get into on_message's `with` block
+    before the reader really waits"""
+
+    def __init__(self):
+        super().__init__()
+        self.waiting = threading.Semaphore(0)
+
+    def wait(self, timeout=None):
+        self.waiting.release()
+        return super().wait(timeout)
 
 
 def parse_map(s):
@@ -164,20 +206,54 @@ class Rig:
         m.cob_id, m.enabled, m.rtr_allowed = cob, en, rtr
         return m
 
-    def deliver(self, can_id, data):
-        ts = self.clock
-        self.clock += 1
-        self.nc.notify(can_id, bytearray(data), ts)
+    def deliver(self, can_id, data, ts=None):
+        """a frame comes in the way the receive thread hands it over: the network's MessageListener gets the
+        can.Message and calls Network.notify (and is the one that deals with an exception out of a callback)"""
+        if ts is None:
+            ts = self.clock
+            self.clock += 1
+        msg = can.Message(arbitration_id=can_id, data=bytes(data), timestamp=ts, is_extended_id=can_id > 0x7FF)
+        self.nc.listeners[0].on_message_received(msg)
+
+    def observer(self, idx, tag, raises):
+        """a callback that records what it can see when it is called, through the map it is handed (variables by
+        iteration over the map), and then returns or raises"""
+        def callback(mp):
+            self.cblog.append(f"{idx}.{tag}~{show_snap(mp)}")
+            if raises:
+                raise RuntimeError(f"callback {idx}.{tag}")
+        return callback
+
+
+def show_var(v):
+    try:
+        return c04.show_val(v.raw, str(v.od.data_type)).replace(" ", ":")
+    except Exception:
+        return "err"
+
+
+def var_at(m, i):
+    """the i-th mapped variable, addressed by position through the map: pdo_map[i]"""
+    return m[i]
 
 
 def show_vals(m):
+    """every mapped variable read by position (0..7)"""
     out = []
-    for v in m.map:
+    for i in range(len(m)):
         try:
-            out.append(c04.show_val(v.raw, str(v.od.data_type)).replace(" ", ":"))
+            out.append(show_var(var_at(m, i)))
         except Exception:
             out.append("err")
     return ",".join(out)
+
+
+def show_snap(mp):
+    try:
+        vals = ";".join(show_var(v) for v in mp)
+    except Exception:
+        vals = "err"
+    return (f"{show_opt(mp.timestamp)}~{int(bool(mp.is_received))}~{show_opt(mp.period)}~{c04.hx(bytes(mp.data))}~{vals}")
 
 
 def show_opt(x):
@@ -185,7 +261,7 @@ def show_opt(x):
 
 
 def show_log(l):
-    return ",".join(f"{k}.{t}" for k, t in l) if l else "-"
+    return ",".join(l) if l else "-"
 
 
 def run_impl(op):
@@ -206,14 +282,14 @@ def step(rig, p):
     k = p[0]
     if k == "w":
         m, i = rig.pm[int(p[1])], int(p[2])
-        t = m.map[i].od.data_type
+        t = var_at(m, i).od.data_type
         if p[3] == "int":
-            m.map[i].raw = int(p[4])
+            var_at(m, i).raw = int(p[4])
         elif p[3] == "bool":
-            m.map[i].raw = p[4] == "1"
+            var_at(m, i).raw = p[4] == "1"
         else:
             eb, mb = (8, 23) if t == 0x08 else (11, 52)
-            m.map[i].raw = c04.bits_to_float(int(p[4]), eb, mb)
+            var_at(m, i).raw = c04.bits_to_float(int(p[4]), eb, mb)
         return "ok"
     if k == "t":
         m = rig.pm[int(p[1])]
@@ -234,19 +310,19 @@ def step(rig, p):
     if k == "y":
         # a frame stamped `dt` below the clock (equal to or older than an earlier frame's stamp); clock stays
         del rig.cblog[:]
-        rig.nc.notify(int(p[1]), bytearray(c04.unhx(p[2])), rig.clock - int(p[3]))
+        rig.deliver(int(p[1]), c04.unhx(p[2]), ts=rig.clock - int(p[3]))
         return f">{show_log(rig.cblog)}"
     if k == "v":
         # the consuming side writes a variable of a map it receives on
         m, i = rig.cm[int(p[1])], int(p[2])
-        t = m.map[i].od.data_type
+        t = var_at(m, i).od.data_type
         if p[3] == "int":
-            m.map[i].raw = int(p[4])
+            var_at(m, i).raw = int(p[4])
         elif p[3] == "bool":
-            m.map[i].raw = p[4] == "1"
+            var_at(m, i).raw = p[4] == "1"
         else:
             eb, mb = (8, 23) if t == 0x08 else (11, 52)
-            m.map[i].raw = c04.bits_to_float(int(p[4]), eb, mb)
+            var_at(m, i).raw = c04.bits_to_float(int(p[4]), eb, mb)
         return "ok"
     if k == "r":
         m = rig.cm[int(p[1])]
@@ -282,10 +358,13 @@ def step(rig, p):
             m.map_array[i].od.value = (idx << 16) | ln
         m.read(from_od=True)
         return "ok"
-    if k == "b":
+    if k in ("b", "B"):
         idx, tag = int(p[1]), int(p[2])
-        rig.cm[idx].add_callback(lambda mp, idx=idx, tag=tag: rig.cblog.append((idx, tag)))
+        rig.cm[idx].add_callback(rig.observer(idx, tag, k == "B"))
         return "ok"
+    if k == "Z":
+        return threaded_wait(rig, rig.cm[int(p[1])], int(p[2]), int(p[3]) / 1000.0,
+                             [] if p[4] == "-" else [(int(e.split(":")[0]), c04.unhx(e.split(":")[1])) for e in p[4].split(";")])
     if k == "T":
         # older spelling of S.C.<k>.7 / E.C.<k>
         m = rig.cm[int(p[1])]
@@ -311,6 +390,52 @@ def step(rig, p):
         m.receive_condition = cond
         return f"wait:{show_opt(m.wait_for_reception(0.01))}"
     return "bad"
+
+
+def threaded_wait(rig, m, nreaders, timeout, arrivals):
+    """`nreaders` threads call wait_for_reception(timeout) on the map (a real threading.Condition); once all of them
+    wait, this thread - the receive thread's part - hands in the frames one after the other.  As soon as the map says
+    is_received the readers are joined before the next frame comes (the wait is over; which frame a reader would see
+    after that is a matter of scheduling).  A reader that needed (nearly) the whole time-out although it got a
+    timestamp was not woken: it is marked `late`."""
+    cond = ObsCondition()
+    m.receive_condition = cond
+    results = [None] * nreaders
+
+    def reader(i):
+        t0 = time.monotonic()
+        try:
+            r = m.wait_for_reception(timeout)
+            results[i] = (show_opt(r), time.monotonic() - t0)
+        except Exception:
+            results[i] = ("err", 0.0)
+
+    threads = [threading.Thread(target=reader, args=(i,), daemon=True) for i in range(nreaders)]
+    for th in threads:
+        th.start()
+        t0 = time.monotonic()
+        # until this reader is about to block in wait() - or has come back without ever waiting
+        while not cond.waiting.acquire(timeout=0.02):
+            if not th.is_alive():
+                break
+            if time.monotonic() - t0 > 60:
+                return "wait:stuck"
+    joined = False
+    for cid, data in arrivals:
+        rig.deliver(cid, data)
+        if not joined and m.is_received:
+            for th in threads:
+                th.join(timeout + 30)
+            joined = True
+    for th in threads:
+        th.join(timeout + 30)
+    outs = []
+    for r in results:
+        if r is None:
+            outs.append("hung")
+        else:
+            outs.append(r[0] + (":late" if r[0] not in ("n", "err") and r[1] >= 0.8 * timeout else ""))
+    return "wait:" + ",".join(outs)
 
 
 # ---------------------------------------------------------------------- independent oracle
@@ -360,8 +485,27 @@ def canon_model(op, out):
     if len(toks) != len(outs):
         return out
     prod, cons = parse_maps(a[1]), parse_maps(a[2])
+
+    def canon_vals(vals, lay):
+        if len(vals) == len(lay):
+            for j, (v, (t, _l)) in enumerate(zip(vals, lay)):
+                if v.startswith("real:") and v[5:].isdigit() and t in c04.REALS and c04.is_nan_pattern(t, int(v[5:])):
+                    vals[j] = "real:nan"
+        return vals
+
     for i, (tok, o) in enumerate(zip(toks, outs)):
         p = tok.split(".")
+        if p[0] in ("t", "x", "y") and "real:" in o and ">" in o:
+            # what the callbacks recorded: <map>.<tag>~ts~received~period~data~v;v;…
+            head, log = o.split(">", 1)
+            entries = log.split(",")
+            for j, e in enumerate(entries):
+                f = e.split("~")
+                if len(f) == 6 and f[0].split(".")[0].isdigit() and int(f[0].split(".")[0]) < len(cons):
+                    f[5] = ";".join(canon_vals(f[5].split(";"), cons[int(f[0].split(".")[0])][3]))
+                    entries[j] = "~".join(f)
+            outs[i] = head + ">" + ",".join(entries)
+            continue
         if p[0] not in ("r", "p") or "real:" not in o or "@" not in o:
             continue
         lay = (cons if p[0] == "r" else prod)[int(p[1])][3]
@@ -394,7 +538,7 @@ def oracle(op, out):
             clock += 1
         else:
             ts = at
-        log = []
+        log = []                      # what each invoked callback must have seen: this frame, completely taken over
         for k in subs.get(cid, []):
             m = cons[k]
             if m.cob == cid and not m.transmitting:
@@ -404,8 +548,42 @@ def oracle(op, out):
                 if m.ts is not None:
                     m.period = ts - m.ts
                 m.ts = ts
-                log += [(k, t) for t in m.cbs]
+                vals = [m.val(i) for i in range(len(m.layout))]
+                raised = False
+                for tag, raises in m.cbs:
+                    log.append((k, tag, ts, m.period, c04.hx(data), None if None in vals else vals))
+                    if raises:
+                        raised = True
+                        break
+                if raised:
+                    # an exception out of a callback ends the dispatch of this frame (the remaining callbacks and the
+                    # maps subscribed later are passed over, the listener logs it) - taken as the tree does it;
+                    # what is demanded for the map itself (data, timestamp, wake-up) is already done above
+                    break
         return log
+
+    def check_log(got, exp):
+        gl = [] if got == "-" else got.split(",")
+        heads = [g.split("~")[0] for g in gl]
+        want = [f"{k}.{tag}" for k, tag, *_ in exp]
+        if heads != want:
+            return (f"callbacks invoked {','.join(heads) or '-'}, expected {','.join(want) or '-'} (each callback of a map "
+                    f"that takes the frame once, in order)")
+        for g, (k, tag, ts, per, hexd, vals) in zip(gl, exp):
+            f = g.split("~")
+            if len(f) != 6:
+                return f"callback {k}.{tag} left the record {g}"
+            if f[4] != hexd:
+                return f"callback {k}.{tag} invoked for the frame {hexd} stamped {ts} saw the data {f[4]}"
+            if f[1] != str(ts):
+                return f"callback {k}.{tag} invoked for the frame {hexd} stamped {ts} saw the timestamp {f[1]}"
+            if f[2] != "1":
+                return f"callback {k}.{tag} invoked for the frame {hexd} stamped {ts} saw is_received = {f[2]}"
+            if f[3] != show_opt(per):
+                return f"callback {k}.{tag} invoked for the frame {hexd} stamped {ts} saw the period {f[3]}, expected {show_opt(per)}"
+            if vals is not None and f[5] != ";".join(vals):
+                return f"callback {k}.{tag} invoked for the frame {hexd} read {f[5]}, the frame holds {';'.join(vals)}"
+        return None
 
     for tok, o in zip(toks, outs):
         p = tok.split(".")
@@ -438,18 +616,28 @@ def oracle(op, out):
                 continue
             data = m.x.to_bytes(m.size, "little")
             log = deliver(m.cob, data)
-            exp = f"tx:{m.cob}:{c04.hx(data)}>{show_log(log)}"
-            if o != exp:
-                return (f"transmit {tok} gave {o}, expected {exp} (exactly one frame: COB-ID and current data; callbacks "
-                        f"once each){' while a periodic transmission of the map runs' if m.transmitting else ''}")
+            exp = f"tx:{m.cob}:{c04.hx(data)}"
+            head, _, got_log = o.partition(">")
+            if head != exp or ">" not in o:
+                return (f"transmit {tok} gave {o}, expected {exp} (exactly one frame: COB-ID and current data)"
+                        f"{' while a periodic transmission of the map runs' if m.transmitting else ''}")
+            w = check_log(got_log, log)
+            if w:
+                return f"{w} [transmit {tok}]"
         elif k == "x":
             log = deliver(int(p[1]), c04.unhx(p[2]))
-            if o != f">{show_log(log)}":
-                return f"frame {tok} invoked {o}, expected >{show_log(log)}"
+            if not o.startswith(">"):
+                return f"frame {tok} gave {o}"
+            w = check_log(o[1:], log)
+            if w:
+                return f"{w} [frame {tok}]"
         elif k == "y":
             log = deliver(int(p[1]), c04.unhx(p[2]), at=clock - int(p[3]))
-            if o != f">{show_log(log)}":
-                return f"frame {tok} (timestamp not newer than an earlier one) invoked {o}, expected >{show_log(log)}"
+            if not o.startswith(">"):
+                return f"frame {tok} gave {o}"
+            w = check_log(o[1:], log)
+            if w:
+                return f"{w} [frame {tok}, timestamp not newer than an earlier one]"
         elif k == "v":
             m = cons[int(p[1])]
             i = int(p[2])
@@ -504,8 +692,8 @@ def oracle(op, out):
                 lst = subs.setdefault(m.cob, [])
                 if int(p[1]) not in lst:
                     lst.append(int(p[1]))
-        elif k == "b":
-            cons[int(p[1])].cbs.append(int(p[2]))
+        elif k in ("b", "B"):
+            cons[int(p[1])].cbs.append((int(p[2]), k == "B"))
         elif k in ("T", "S", "E", "U"):
             # periodic transmission: start(period) stops a running task, keeps a given period, and needs a
             # period (documented ValueError otherwise); stop() ends it; update() changes nothing on the map
@@ -541,6 +729,21 @@ def oracle(op, out):
             exp = f"wait:{show_opt(m.ts) if m.received else 'n'}"
             if o != exp:
                 return f"wait_for_reception on map {p[1]} gave {o}, expected {exp}"
+        elif k == "Z":
+            # reader threads: the first frame the map takes wakes every one of them and hands over its timestamp,
+            # whatever the map's callbacks do; later frames find nobody waiting
+            m = cons[int(p[1])]
+            m.received = False
+            res = None
+            if p[4] != "-":
+                for e in p[4].split(";"):
+                    deliver(int(e.split(":")[0]), c04.unhx(e.split(":")[1]))
+                    if res is None and m.received:
+                        res = m.ts
+            exp = "wait:" + ",".join([show_opt(res)] * int(p[2]))
+            if o != exp:
+                return (f"wait_for_reception in {p[2]} thread(s) on map {p[1]} gave {o}, expected {exp} (every waiting "
+                        f"reader is woken by the frame and handed its timestamp)")
     return None
 
 
@@ -566,7 +769,22 @@ def shrink_candidates(op):
 
 
 # ---------------------------------------------------------------------- generator
+def full_layout(rng):
+    """a map with all eight slots used: 1-byte objects, 1-bit and few-bit fields (positions 0..7)"""
+    singles = [(t, ln) for t in c05.ALL_TYPES for ln in c05.lens_for(t) if ln <= 8]
+    kind = rng.random()
+    if kind < 0.35:
+        pool = [e for e in singles if e[1] == 8]
+    elif kind < 0.6:
+        pool = [e for e in singles if e[1] == 1]
+    else:
+        pool = singles
+    return [rng.choice(pool) for _ in range(8)]
+
+
 def rand_layout(rng):
+    if rng.random() < 0.15:
+        return full_layout(rng)
     singles = [(t, ln) for t in c05.ALL_TYPES for ln in c05.lens_for(t)]
     lay, total = [], 0
     for _ in range(rng.randint(1, 6)):
@@ -594,6 +812,87 @@ def periodic_step(rng, nm):
     return f"E.{side}.{k}" if r < 0.75 else f"U.{side}.{k}"
 
 
+T_WAKE, T_NONE = 2000, 250       # ms: time-out of a reader that is to be woken (generous) / that waits in vain
+
+
+def gen_threaded(tier, rng):
+    """reader threads in wait_for_reception while frames come in from another thread; observer callbacks, some of
+    them raising (first / middle / last of several).  The generator keeps track of whether the waited-for map takes a
+    frame (subscribed, enabled, its COB-ID, not transmitting) only to choose the time-out."""
+    for _ in range(24 if tier == "quick" else 70):
+        lay = rand_layout(rng)
+        size = (sum(l for _, l in lay) + 7) // 8
+        two = rng.random() < 0.35
+        cobs = [385, 385 if rng.random() < 0.4 else 386] if two else [385]
+        mt = [map_token(c, True, True, lay) for c in cobs]
+        steps = []
+        order = list(range(len(cobs)))
+        rng.shuffle(order)
+        subscribed = []
+        for k in order:
+            if rng.random() < 0.95:
+                steps.append(f"s.{k}")
+                subscribed.append(k)
+        raising = {}
+        for k in range(len(cobs)):
+            ncb = rng.choice([0, 1, 1, 2, 3, 3])
+            bad = rng.choice([None, None, 0, ncb // 2, ncb - 1]) if ncb else None
+            raising[k] = bad is not None
+            for j in range(ncb):
+                steps.append(f"{'B' if j == bad else 'b'}.{k}.{10 * k + j}")
+        running = set()
+        for _ in range(rng.randint(1, 3)):
+            k = rng.randrange(len(cobs))
+            r = rng.random()
+            if r < 0.12:
+                steps.append(f"S.C.{k}.3600")
+                running.add(k)
+            elif r < 0.24:
+                steps.append(f"E.C.{k}")
+                running.discard(k)
+            elif r < 0.4:
+                i = rng.randrange(len(lay))
+                kind, v = rng.choice(c05.values_for(lay[i][0], lay[i][1], rng, "quick"))
+                steps += [f"w.{k}.{i}.{kind}.{v}", f"t.{k}", f"r.{k}"]
+                continue
+            frames = [(rng.choice(cobs + [0x200]) if rng.random() < 0.3 else cobs[k],
+                       c04.hx(bytes(rng.getrandbits(8) for _ in range(size)))) for _ in range(rng.choice([0, 1, 1, 1, 2, 3]))]
+            # does one of the frames get to map k?  (an earlier subscriber on the same COB-ID whose callback raises
+            # ends the dispatch before it)
+            woken = False
+            for cid, _h in frames:
+                if cid != cobs[k] or k not in subscribed or k in running:
+                    continue
+                before = [j for j in subscribed[:subscribed.index(k)] if cobs[j] == cid and j not in running]
+                if not any(raising[j] for j in before):
+                    woken = True
+            arr = ";".join(f"{cid}:{h}" for cid, h in frames) or "-"
+            steps.append(f"Z.{k}.{rng.choice([1, 1, 2, 3])}.{T_WAKE if woken else T_NONE}.{arr}")
+            steps.append(f"r.{k}")
+        yield f"x {';'.join(mt)} {';'.join(mt)} {'|'.join(steps)}"
+
+
+def gen_full(tier, rng):
+    """maps with all eight slots used: every position 0..7 written on the producer, transmitted, read on the consumer
+    and inside a callback"""
+    for _ in range(12 if tier == "quick" else 60):
+        lay = full_layout(rng)
+        mt = map_token(0x181, True, True, lay)
+        steps = ["s.0", "b.0.1"]
+        for i in rng.sample(range(8), 8):
+            kind, v = rng.choice(c05.values_for(lay[i][0], lay[i][1], rng, "quick"))
+            steps.append(f"w.0.{i}.{kind}.{v}")
+            if rng.random() < 0.4:
+                steps += ["t.0", "r.0"]
+        steps += ["t.0", "r.0", "p.0"]
+        if all(t in c04.SPEC for t, _ in lay):
+            t7, l7 = lay[7]
+            w, sg = c04.SPEC[t7]
+            lo, hi = (-(1 << (w - 1)), (1 << (w - 1)) - 1) if sg else (0, (1 << w) - 1)
+            steps += [f"v.0.7.int.{rng.randint(lo, hi)}", "r.0"]
+        yield f"x {mt} {mt} {'|'.join(steps)}"
+
+
 def gen_ops(tier, rng):
     n_hist = 400 if tier == "quick" else 5000
     cobs = [0x181, 0x182, 0x281, 0x381, 0x7FF, 0x800, 0x1FFFFFFF, 0x181]
@@ -611,7 +910,7 @@ def gen_ops(tier, rng):
             if rng.random() < 0.9:
                 steps.append(f"s.{k}")
             for tag in range(rng.randint(0, 2)):
-                steps.append(f"b.{k}.{10 * k + tag}")
+                steps.append(f"{'B' if rng.random() < 0.15 else 'b'}.{k}.{10 * k + tag}")
         # one history in three starts with periodic transmissions already running on producer maps
         if rng.random() < 0.33:
             for k in range(nm):
@@ -672,6 +971,8 @@ def gen_ops(tier, rng):
         if len(set(ccobs)) < len(ccobs) or any(t[:2] in ("c.", "d.") for t in steps):
             steps = [t for t in steps if not t.startswith("v.")]
         yield f"x {';'.join(pm)} {';'.join(cm)} {'|'.join(steps)}"
+    yield from gen_threaded(tier, rng)
+    yield from gen_full(tier, rng)
     # every type alone and in pairs: write all boundary values, transmit, read on the other side
     singles = [(t, ln) for t in c05.ALL_TYPES for ln in c05.lens_for(t)]
     pairs = [[a_] for a_ in singles] + [[a_, b_] for a_ in singles for b_ in rng.sample(singles, 3 if tier == "quick" else 12)
@@ -706,6 +1007,22 @@ CORPUS = [
     # two maps, one of them running: the other is not affected; reconfiguration while running
     f"x {_M2} {_M2} s.0|s.1|b.0.1|b.1.2|S.P.1.1|w.0.0.int.-3|w.0.1.int.48879|w.1.0.int.77|t.0|t.1|r.0|r.1|S.P.0.3600|"
     "w.1.0.int.78|t.1|t.0|r.0|r.1|S.C.1.7|c.1.385.1.1|s.1|t.0|r.0|r.1|E.C.1|t.0|r.0|r.1|d.1.386.1.0|S.C.1.n|t.1|r.1|E.C.1|t.1|r.1",
+    # observers: what a callback sees when it is called (first frame: no earlier timestamp; later: period known)
+    f"x {_M1} {_M1} s.0|b.0.1|b.0.2|w.0.0.int.-5|w.0.1.int.7|t.0|w.0.0.int.1234|t.0|x.385.0080ff|y.385.010203.1|r.0",
+    # a callback raises - first / middle / last of three: data and timestamp are set, the callbacks up to it ran
+    f"x {_M1} {_M1} s.0|B.0.1|b.0.2|b.0.3|w.0.0.int.9|t.0|r.0|W.0.385:0a0b0c|r.0",
+    f"x {_M1} {_M1} s.0|b.0.1|B.0.2|b.0.3|w.0.0.int.9|t.0|r.0|x.385.0a0b0c|r.0",
+    f"x {_M1} {_M1} s.0|b.0.1|b.0.2|B.0.3|w.0.0.int.9|t.0|r.0|W.0.385:0a0b0c;385:0d0e0f|r.0",
+    # reader threads: woken by the frame whatever the callbacks do; two readers; nobody to wake
+    f"x {_M1} {_M1} s.0|b.0.1|Z.0.1.{T_WAKE}.385:0a0b0c|r.0|Z.0.2.{T_WAKE}.897:00;385:0d0e0f;385:111213|r.0|Z.0.1.{T_NONE}.-",
+    f"x {_M1} {_M1} s.0|b.0.1|B.0.2|b.0.3|Z.0.1.{T_WAKE}.385:0a0b0c|r.0|Z.0.3.{T_WAKE}.385:0d0e0f|r.0",
+    f"x {_M1} {_M1} s.0|B.0.1|Z.0.2.{T_WAKE}.385:0a0b0c|r.0|S.C.0.3600|Z.0.1.{T_NONE}.385:0d0e0f|r.0",
+    # two maps on one COB-ID, the first one's callback raises: the dispatch ends there
+    f"x {_M2} 385,1,1,2:4/6:16;385,1,1,2:4/6:16 s.0|s.1|b.0.1|B.0.2|b.1.3|w.0.0.int.-3|t.0|r.0|r.1|Z.0.1.{T_WAKE}.385:0a0b0c|r.0|r.1",
+    # a full map: positions 0..7, bytes and single bits
+    "x 385,1,1,5:8/2:8/5:8/2:8/5:8/2:8/5:8/2:8 385,1,1,5:8/2:8/5:8/2:8/5:8/2:8/5:8/2:8 s.0|b.0.1|w.0.7.int.-128|w.0.6.int.255|"
+    "w.0.0.int.1|t.0|r.0|p.0|v.0.7.int.5|r.0",
+    "x 385,1,1,1:1/5:1/1:1/5:1/1:1/5:1/1:1/5:1 385,1,1,1:1/5:1/1:1/5:1/1:1/5:1/1:1/5:1 s.0|b.0.1|w.0.7.int.1|w.0.6.bool.1|t.0|r.0|p.0",
     # a consumer map without COB-ID cannot start; the older T spelling
     f"x {_M1} n,1,1,3:16/5:8 S.C.0.5|r.0|T.0.1|c.0.385.1.1|s.0|T.0.1|t.0|r.0|T.0.0|t.0|r.0",
 ]
@@ -716,7 +1033,9 @@ LEVEL_TEXT = ("Lean 4 theorems composing the C05 bit-field theorems with the exc
               "sign-extended) with the frame's timestamp; a frame updates exactly the maps subscribed to and "
               "configured for its COB-ID (colliding COB-IDs: all of them) and invokes each of their callbacks once in "
               "order; a remote request is sent only for an enabled map that allows RTR; a waiting reader gets the "
-              "timestamp of a frame delivered meanwhile; start / stop / update of a map's periodic transmission, anywhere "
+              "timestamp of a frame delivered meanwhile - also in a thread of its own and whatever the map's callbacks do "
+              "(raising ones included); every invoked callback is handed the map with the frame's data and timestamp "
+              "already in place; start / stop / update of a map's periodic transmission, anywhere "
               "in a history of writes, change neither the single frame transmit() sends nor what the consumer reads "
               "from it (a transmitting consumer map ignores frames until stop()); tied to the code by differential "
               "histories over two nodes, every kind of step with and without a running periodic task")
